@@ -20,6 +20,7 @@ LEVEL_TEXT += (" (E3.ctx) nested execution contexts redefine the same fields in 
 LEVEL_TEXT += (' (E3.kind) set literals / comprehensions build only set values and list ones only list values, in both modes.')
 
 
+LEVEL_TEXT += (' (E3.all) element loops of both interpreters reach the successful return only through the exhausted iterator (`if` excepted).')
 def _report(rep, rule, f, feats, problems, ids):
     seen = set()
     for fid, msg in problems:
@@ -210,6 +211,9 @@ def run(prog, rep):
     regex_capture_lookup(prog, rep)
     from ..engines import e5_writers as e5
     e5.mutability_flags(prog, rep)
+    from ..engines import e3_driver
+    na = e3_driver.element_loops_complete(prog, rep)
+    rep.floor("E3.all", na, 16, "element loops of the interpreters")
     # panic where the other mode has an error: no undischarged panic site in the lazy interpreter
     rep.rule("E1.a", e1_panic.RULES["E1.a"] + " (restricted to execution/lazy*: a panic where strict reports an error)")
     sites, per_rule, ctx = e1_panic.run_e1a(prog, rep, fn_filter=lambda f: f.file.startswith("src/execution/lazy"))
